@@ -662,6 +662,12 @@ class BaseProxy(_BaseProxy_):
     #    - remove parameter `exposed`.
     def __init__(self, token, serializer, authkey=None, incref=True):
         self._server = get_server(token.address)
+        if authkey is None and self._server:
+            # This proxy is being rebuilt inside the server it refers to (a client has passed
+            # it in). It may travel back to a client later, with the key it carries (see
+            # `__reduce__`): that must be the server's key, not the default key of the server
+            # process, which is a different one if the manager was given an `authkey` of its own.
+            authkey = self._server.authkey
         super().__init__(
             token,
             serializer,
